@@ -363,7 +363,9 @@ func checkOptimize(c *Ctx, opt *ssa.Function) {
 				case lk.Op != "lookup":
 					why = "picked from " + short(x.String())
 				case lk.Args[0].String() != chooserT:
-					st = stateOf(false, vocabOf(chooserT), lk.Args[0])
+					voc := vocabOf(chooserT)
+					voc["containers-opaque"] = true // a chooser map assembled in place (inlined helper): what it holds is not in the term
+					st = stateOf(false, voc, lk.Args[0])
 					why = "the chooser map is " + short(lk.Args[0].String()) + "; want the one built from the table argument"
 				case lk.Args[1].String() != residue:
 					st = stateOf(false, vocabOf(residue), lk.Args[1])
